@@ -307,6 +307,7 @@ impl num_traits::Signed for Q {
     fn is_negative(&self) -> bool { self.n < 0 }
 }
 impl Q {
+    pub fn max_q(self, o: Q) -> Q { if self >= o { self } else { o } }
     fn trunc_q(self) -> Q { if !self.is_plain() { inconclusive("trunc of non-plain") } Q::new(self.n / self.d, 1) }
     fn floor_q(self) -> Q { if !self.is_plain() { inconclusive("floor of non-plain") } Q::new(self.n.div_euclid(self.d), 1) }
 }
@@ -346,7 +347,11 @@ impl num_traits::real::Real for Q {
     fn log(self, _b: Q) -> Q { unsup("log") }
     fn log2(self) -> Q { unsup("log2") }
     fn log10(self) -> Q { unsup("log10") }
-    fn to_degrees(self) -> Q { unsup("to_degrees") }
+    fn to_degrees(self) -> Q {
+        // only rational multiples of pi have a rational number of degrees
+        if self.n == 0 { return Q::int(0); }
+        match self.u { Unit::Pi => Q::new(mul(self.n, 180), self.d), _ => unsup("to_degrees of a non-pi angle") }
+    }
     fn to_radians(self) -> Q {
         // degrees -> radians: d * pi / 180
         if !self.is_plain() { unsup("to_radians of non-plain") }
